@@ -552,7 +552,7 @@ pub fn rsa_spki_with_bits(r: &mut Rng, bits: usize) -> Vec<u8> {
     der_tlv(0x30, &[alg.to_vec(), der_tlv(3, &bitstr)].concat())
 }
 
-fn p384_uncompressed(c: &[u8]) -> Option<Vec<u8>> {
+pub fn p384_uncompressed(c: &[u8]) -> Option<Vec<u8>> {
     use p384::elliptic_curve::sec1::ToEncodedPoint;
     let pk = p384::PublicKey::from_sec1_bytes(c).ok()?;
     Some(pk.to_encoded_point(false).as_bytes().to_vec())
@@ -604,6 +604,7 @@ pub fn gen_c08(out: &mut impl Write, seed: u64, thorough: bool) {
             }
             writeln!(out, "key.pub {} {}", be.name(), hex(&sk)).unwrap();
             writeln!(out, "o.keypair {} {}", be.name(), hex(&sk)).unwrap();
+            if be.version() == 3 { writeln!(out, "o.pkforms {} {}", be.name(), hex(&sk)).unwrap(); }
             let lk = r.bytes(32);
             writeln!(out, "o.key {} local {}", be.name(), hex(&lk)).unwrap();
             match be.version() {
